@@ -196,7 +196,19 @@ def core_dir():
     return os.path.dirname(os.path.dirname(os.path.dirname(os.path.abspath(__file__))))
 
 
+def lemmas(ctx):
+    """Thorough tier: the arithmetic lemmas that extrapolate the bounded model to all sizes, by Apalache (unbounded Int)."""
+    if ctx.quick():
+        return
+    status, wall = tlc.apalache_lemmas(ctx.outdir)
+    ctx.notes["apalache_ArithLemmas"] = {"status": status, "wall_s": round(wall, 1),
+                                         "lemmas": ["SubblockPlan", "PaddingRule", "PieceCount"]}
+    if status == "counterexample":
+        ctx.violation("ArithLemmas", "apalache:counterexample", {"action": "Lemmas"}, {"see": "apalache-mc check --inv=Lemmas --length=0 ArithLemmas.tla"})
+
+
 def run(ctx):
+    lemmas(ctx)
     run_for(ctx, "C02")
     trace_leg(ctx, "C02")
     large_block_leg(ctx)
